@@ -208,5 +208,45 @@ func TestGovcBoundedC07Augments(t *testing.T) {
 			fmt.Printf("GOVC-FAIL name=c07-augment-errors %s: the augment is half applied, top has %d children (want the 4 it had)\n", fc.what, len(top.Dir))
 		}
 	}
+	// a long chain: two modules augment each other's additions in turn, ten levels deep, each
+	// listing its augments deepest first -- every pass of the retry loop settles one level only,
+	// so there are many more passes than modules; all augments find their target in the end
+	{
+		const depth = 10
+		body := map[string][]string{}
+		path := "/base:c0"
+		for i := 1; i <= depth; i++ {
+			pf := "r"
+			if i%2 == 1 {
+				pf = "l"
+			}
+			body[pf] = append([]string{fmt.Sprintf("augment %s { container c%d { } }", path, i)}, body[pf]...)
+			path += fmt.Sprintf("/%s:c%d", pf, i)
+		}
+		srcs := []string{
+			`module base { namespace "urn:base"; prefix base; container c0 { } }`,
+			`module left { namespace "urn:left"; prefix l; import base { prefix base; } import right { prefix r; } ` + strings.Join(body["l"], " ") + ` }`,
+			`module right { namespace "urn:right"; prefix r; import base { prefix base; } import left { prefix l; } ` + strings.Join(body["r"], " ") + ` }`,
+		}
+		for _, order := range [][]int{{0, 1, 2}, {2, 1, 0}, {1, 0, 2}, {2, 0, 1}} {
+			evals++
+			ms := NewModules()
+			for _, ix := range order {
+				if err := ms.Parse(srcs[ix], fmt.Sprintf("chain%d.yang", ix)); err != nil {
+					fmt.Printf("GOVC-FAIL name=c07-augments the chain does not parse: %v\n", err)
+				}
+			}
+			if errs := ms.Process(); len(errs) > 0 {
+				fmt.Printf("GOVC-FAIL name=c07-augments a chain of %d augments alternating between two modules (load order %v): %v\n", depth, order, errs[0])
+				continue
+			}
+			e := ToEntry(ms.Modules["base"])
+			for i := 0; i <= depth && e != nil; i++ {
+				if e = e.Dir[fmt.Sprintf("c%d", i)]; e == nil {
+					fmt.Printf("GOVC-FAIL name=c07-augments a chain of %d augments alternating between two modules (load order %v): c%d is missing\n", depth, order, i)
+				}
+			}
+		}
+	}
 	fmt.Printf("GOVC-BOUNDED name=c07-augments-vs-model bound=%d_random_module_sets_(<=3_modules,_submodule,_2-7_chained_augments,_shuffled_statements,_seed_%d;_%d_with_a_bad_augment)_x_3_load_orders evaluations=%d distinct=%d\n", schemas, seed, bad, evals, nodes)
 }
